@@ -216,10 +216,17 @@ fn perform(st: &mut State, op: &Json, idx: usize) {
                 // Heaps may be named; different heaps can legitimately carry equal names
                 // (e.g. a file evaluated again).
                 match op["heap_name"].as_str() {
+                    // A heap named with the embedder-facing `singleton_heap_name!()`: one name per
+                    // call site, so all such heaps of this world share it, and each is an ordinary
+                    // heap which can be dropped.
+                    Some("@singleton") => module.freeze_named(starlark::values::FrozenHeapName::Singleton(starlark::singleton_heap_name!())),
                     Some(n) => module.freeze_named(starlark::values::FrozenHeapName::user(n)),
                     None => module.freeze(),
                 }
             });
+            if op["heap_name"].as_str() == Some("@singleton") {
+                bump(st, "probe.modules_on_singleton_named_heaps");
+            }
             drop(loader);
             bump(st, "modules_built");
             if let Some(e) = &build_err {
@@ -408,6 +415,12 @@ fn perform(st: &mut State, op: &Json, idx: usize) {
             }
             if op["marker"].as_bool().unwrap_or(true) {
                 gb.set(if short { "m" } else { "marker" }, 7);
+            }
+            // Values allocated on the Globals' own heap (what a FrozenModule::from_globals exports).
+            if op["own"].as_bool().unwrap_or(false) {
+            gb.set("gown", format!("globals-own-string-{idx}-{}", "x".repeat(40 + idx % 30)));
+            gb.set("gownl", vec![format!("globals-own-item-{idx}"), "y".repeat(33)]);
+                bump(st, "probe.globals_with_values_on_their_own_heap");
             }
             let g = gb.build();
             let recorded = observe_globals(&g);
@@ -659,7 +672,7 @@ impl World for C13 {
             Dead,
             Frozen(Vec<(String, Kind)>),
             Handle,
-            Globals,
+            Globals(bool),
         }
         let mut ents: Vec<G> = Vec::new();
         let mut ops: Vec<Json> = Vec::new();
@@ -669,7 +682,7 @@ impl World for C13 {
                 .filter(|(_, e)| match (e, want) {
                     (G::Frozen(_), 0) => true,
                     (G::Handle, 1) => true,
-                    (G::Globals, 2) => true,
+                    (G::Globals(_), 2) => true,
                     _ => false,
                 })
                 .map(|(i, _)| i)
@@ -740,9 +753,10 @@ impl World for C13 {
                 };
                 // Exporter modules do not need observations.
                 let stmts: Vec<String> = stmts.into_iter().filter(|s| !s.starts_with("emit(")).collect();
-                let heap_name = match wl.below(4) {
+                let heap_name = match wl.below(5) {
                     0 => json!("lib.star"),
                     1 => json!(format!("pkg{}.star", wl.below(2))),
+                    2 => json!("@singleton"),
                     _ => Json::Null,
                 };
                 ops.push(json!({"op": "build", "thread": thread, "deps": deps, "stmts": stmts, "extra": wl.chance(1, 3), "heap_name": heap_name, "reexport_only": reexport_only}));
@@ -776,8 +790,9 @@ impl World for C13 {
                 let n = 1 + wl.usize(3);
                 let ts: Vec<usize> = (0..n).map(|_| handles[wl.usize(handles.len())]).collect();
                 let group_name = if wl.bool() { json!("group") } else { Json::Null };
-                ops.push(json!({"op": "globals", "thread": thread, "targets": ts, "via_group": wl.chance(1, 3), "short_names": wl.chance(1, 2), "marker": wl.chance(2, 3), "group_name": group_name}));
-                ents.push(G::Globals);
+                let own = wl.chance(1, 2);
+                ops.push(json!({"op": "globals", "thread": thread, "targets": ts, "via_group": wl.chance(1, 3), "short_names": wl.chance(1, 2), "marker": wl.chance(2, 3), "group_name": group_name, "own": own}));
+                ents.push(G::Globals(own));
             } else if r >= 97 {
                 ops.push(json!({"op": "freeze_and_hold", "thread": thread, "via_load": wl.bool(), "size": wl.below(2000), "tag": wl.below(1000)}));
                 ents.push(G::Dead);
@@ -788,7 +803,11 @@ impl World for C13 {
                     ents.push(G::Frozen(vec![("held".to_owned(), Kind::List), ("getg".to_owned(), Kind::Func1)]));
                 } else {
                     ops.push(json!({"op": "from_globals", "thread": thread, "target": t}));
-                    ents.push(G::Frozen(vec![("marker".to_owned(), Kind::Int)]));
+                    if matches!(ents[t], G::Globals(true)) {
+                        ents.push(G::Frozen(vec![("gown".to_owned(), Kind::Str), ("gownl".to_owned(), Kind::List)]));
+                    } else {
+                        ents.push(G::Frozen(vec![("marker".to_owned(), Kind::Int)]));
+                    }
                 }
             } else {
                 // drop something alive
